@@ -9,6 +9,7 @@ import (
 	"log/slog"
 	"math/rand/v2"
 	"net"
+	"net/http"
 	"net/http/httptest"
 	"path/filepath"
 	"strings"
@@ -176,7 +177,7 @@ func c13Gauges(reg *prometheus.Registry) (conn, req float64, ok bool) {
 
 func TestVerif_C13(t *testing.T) {
 	rep := vk.NewReport(t, "C13", "exploration")
-	rep.Rule = "seeded handler compositions (default, cache, router, SQLite, merges of 2-4 of them nested once) wrapped in 0-5 of the provided middlewares (all limit middlewares, both unique filters, allow/deny, quota, logging, Prometheus, NIP-11 chain); a seeded client history is cut at a seeded point (before the first message .. after the last) by {cancel with a draining peer, cancel with a stalled peer, inbound close with a draining peer}; oracle: ServeNostr returns within the bound (a goroutine parked in mocrelay code is the witness), no goroutine started by mocrelay code during the session survives, router registries are empty again, connection/subscription gauges are back to 0; plus the WebSocket clause: a raw TCP peer that completes the handshake and never reads, handler flooding 60 kB messages, for send timeout x ping interval (incl. disabled) x start delay: the handler's session must end within 50 x send timeout; non-trivial = a session with at least one message processed and a non-default base or a middleware; distinct = distinct (composition, ending, cut position bucket)"
+	rep.Rule = "seeded handler compositions (default, cache, router, SQLite, merges of 2-4 of them nested once) wrapped in 0-5 of the provided middlewares (all limit middlewares, both unique filters, allow/deny, quota, logging, Prometheus, NIP-11 chain); a seeded client history is cut at a seeded point (before the first message .. after the last) by {cancel with a draining peer, cancel with a stalled peer, cancel with a peer that read 1-3 messages and then stalled, inbound close with a draining peer}; oracle: ServeNostr returns within the bound (a goroutine parked in mocrelay code is the witness), no goroutine started by mocrelay code during the session survives, router registries are empty again, connection/subscription gauges are back to 0; a router-backlog scenario (subscriber with 2..buffer deliveries queued reads 0-2 of them, stalls and is cancelled; run twice per handler); plus the WebSocket clause: a raw TCP peer that completes the handshake and never reads, handler flooding 60 kB messages, for send timeout x ping interval (incl. disabled) x start delay x {silent peer, peer that keeps sending binary / non-message text frames}: the handler's session must end within 50 x send timeout and Relay.ServeHTTP must return; non-trivial = a session with at least one message processed and a non-default base or a middleware; distinct = distinct (composition, ending, cut position bucket)"
 	defer rep.Finish()
 	ctx := context.Background()
 	n := vk.N(600, 12000)
@@ -206,7 +207,8 @@ func TestVerif_C13(t *testing.T) {
 		for sidx := 0; sidx < nsess; sidx++ {
 			msgs := c13Messages(r, g, fg, r.IntN(14))
 			cut := r.IntN(len(msgs) + 1)
-			ending := r.IntN(3) // 0 cancel+draining, 1 cancel+stalled, 2 inbound close+draining
+			ending := r.IntN(4) // 0 cancel+draining, 1 cancel+stalled, 2 inbound close+draining, 3 cancel+peer reads a few messages and then stalls
+			partial := int64(1 + r.IntN(3))
 			probing := repeat
 			if probing != nil {
 				msgs, cut, ending = probing.msgs, probing.cut, probing.ending
@@ -228,6 +230,10 @@ func TestVerif_C13(t *testing.T) {
 				go func() {
 					defer dwg.Done()
 					for {
+						if ending == 3 && drained.Load() >= partial {
+							<-stopDrain
+							return
+						}
 						select {
 						case <-send:
 							drained.Add(1)
@@ -241,7 +247,7 @@ func TestVerif_C13(t *testing.T) {
 			for k := 0; k < cut; k++ {
 				// a stalled peer may block the handler: give up feeding after a short while
 				tmo := time.NewTimer(vk.WaitBound)
-				if ending == 1 {
+				if ending == 1 || ending == 3 {
 					tmo.Reset(2 * time.Millisecond)
 				}
 				select {
@@ -253,7 +259,7 @@ func TestVerif_C13(t *testing.T) {
 				}
 				tmo.Stop()
 			}
-			endDesc := []string{"cancel, peer draining", "cancel, peer stalled", "inbound close, peer draining"}[ending]
+			endDesc := []string{"cancel, peer draining", "cancel, peer stalled", "inbound close, peer draining", "cancel, peer stalled after reading 1-3 messages"}[ending]
 			if ending == 2 {
 				close(recv)
 			} else {
@@ -344,6 +350,105 @@ func TestVerif_C13(t *testing.T) {
 		}
 		for _, f := range comp.cleanup {
 			f()
+		}
+	}
+
+	// router backlog: a subscriber reads its EOSE, other sessions publish 2..buffer matching
+	// events, the subscriber reads 0-2 of them and stops, then its session is cancelled while
+	// deliveries are still queued for it. The scenario is run twice on the same handler: a
+	// goroutine of the first run that is still there and has a sibling from the same go
+	// statement after the second run is a leak of the session.
+	nBack := vk.N(60, 800)
+	for i := 0; i < nBack && rep.Violations() < 3; i++ {
+		r := vk.RNG("C13/backlog", i)
+		buf := 2 + r.IntN(8)
+		rt := mocrelay.NewRouterHandler(buf)
+		var h mocrelay.Handler = rt
+		desc := fmt.Sprintf("router(%d)", buf)
+		switch r.IntN(3) {
+		case 1:
+			h, desc = mocrelay.NewMergeHandler(mocrelay.NewCacheHandler(10), rt), "merge(cache(10),"+desc+")"
+		case 2:
+			h, desc = mocrelay.NewMaxSubscriptionsMiddleware(5)(rt), "maxsubs(5)("+desc+")"
+		}
+		g := vk.NewStoreGen(r, 2, 50)
+		g.NoDeletion, g.NoEphemeral = true, true
+		var firstLeak *vk.Goroutine
+		for round := 0; round < 2; round++ {
+			before := vk.GoroutineIDs()
+			a := vk.StartSession(ctx, h, 0)
+			bad := ""
+			if !a.Put(&mocrelay.ClientReqMsg{SubscriptionID: "backlog", ReqFilters: []*mocrelay.ReqFilter{{}}}) {
+				bad = "the REQ was not taken"
+			}
+			for bad == "" {
+				m, ok := a.Get()
+				if !ok {
+					bad = "no EOSE"
+					break
+				}
+				if _, is := m.(*mocrelay.ServerEOSEMsg); is {
+					break
+				}
+			}
+			b := vk.StartSession(ctx, h, 0)
+			npub := 2 + r.IntN(buf)
+			for k := 0; k < npub && bad == ""; k++ {
+				ev := g.Next()
+				if !b.Put(&mocrelay.ClientEventMsg{Event: ev}) {
+					bad = "a publisher's EVENT was not taken"
+					break
+				}
+				if _, ok := b.Get(); !ok {
+					bad = "a publisher got no OK"
+				}
+			}
+			nread := r.IntN(3)
+			for k := 0; k < nread && bad == ""; k++ {
+				if _, ok := a.Get(); !ok {
+					bad = "a queued delivery did not arrive"
+				}
+			}
+			if bad != "" {
+				// not this property's business (C07 judges delivery); without the backlog the scenario says nothing
+				rep.Count("backlog_scenarios_not_set_up", 1)
+				a.Stop()
+				b.Stop()
+				break
+			}
+			wit := map[string]any{"composition": desc, "published": npub, "read_by_the_subscriber_before_it_stalled": nread, "round": round}
+			rep.Eval(1)
+			if !a.Stop() {
+				if p := vk.ParkedInRepo(); p != nil {
+					wit["parked_goroutine"] = p.Stack
+					rep.Violation("termination/serve-did-not-return/router-backlog", "ServeNostr did not return after cancel while deliveries were queued for a peer that had stopped reading", wit)
+				} else {
+					rep.Inconclusive("C13: backlog session did not return within the bound, no goroutine parked in mocrelay code")
+				}
+				b.Stop()
+				break
+			}
+			b.Stop()
+			leaked := vk.LeakedSince(before, vk.WaitBound/2)
+			if conns, subs, ok := vk.PeekRouter(rt); ok && (conns != 0 || subs != 0) {
+				rep.Violation("leak/router-registry", fmt.Sprintf("after both sessions ended the router registry still holds %d connection(s) and %d subscription(s)", conns, subs), wit)
+			}
+			if len(leaked) > 0 {
+				if firstLeak == nil {
+					firstLeak = &leaked[0]
+				} else {
+					for _, g2 := range leaked {
+						if g2.CreatedBy == firstLeak.CreatedBy {
+							wit["goroutine"] = g2.Stack
+							wit["survivor_of_the_first_round"] = firstLeak.Stack
+							rep.Violation("leak/goroutine/"+leakSite(g2), "a session cancelled while deliveries were queued for its stalled peer leaves a goroutine behind, every time", wit)
+							break
+						}
+					}
+				}
+			}
+			rep.Count("router_backlog_sessions", 1)
+			rep.Nontrivial(fmt.Sprintf("backlog/%s/%d/%d", desc, npub, nread))
 		}
 	}
 
@@ -474,12 +579,14 @@ func TestVerif_C13(t *testing.T) {
 	// WebSocket clause
 	type wsCase struct {
 		sendTimeout, ping, delay time.Duration
+		noise                    int // 0: the peer is silent; 1: it keeps sending binary frames; 2: text frames that are not client messages
 	}
 	var cases []wsCase
 	for _, st := range []time.Duration{50 * time.Millisecond, 200 * time.Millisecond} {
 		for _, pg := range []time.Duration{0, 20 * time.Millisecond, time.Hour} {
 			for _, dl := range []time.Duration{0, 70 * time.Millisecond} {
-				cases = append(cases, wsCase{st, pg, dl})
+				cases = append(cases, wsCase{st, pg, dl, 0})
+				cases = append(cases, wsCase{st, pg, dl, 1 + len(cases)/2%2})
 			}
 		}
 	}
@@ -516,8 +623,19 @@ func TestVerif_C13(t *testing.T) {
 				opt := mocrelay.NewDefaultRelayOption()
 				opt.SendTimeout = c.sendTimeout
 				opt.PingDuration = c.ping
-				srv := httptest.NewServer(mocrelay.NewRelay(h, opt))
-				defer srv.Close()
+				rl := mocrelay.NewRelay(h, opt)
+				httpDone := make(chan struct{})
+				var httpOnce sync.Once
+				srv := httptest.NewServer(http.HandlerFunc(func(w http.ResponseWriter, rq *http.Request) {
+					defer httpOnce.Do(func() { close(httpDone) })
+					rl.ServeHTTP(w, rq)
+				}))
+				hung := false
+				defer func() {
+					if !hung { // Close waits for ServeHTTP
+						srv.Close()
+					}
+				}()
 				conn, err := net.Dial("tcp", strings.TrimPrefix(srv.URL, "http://"))
 				if err != nil {
 					rep.Inconclusive("C13: dial failed")
@@ -541,7 +659,22 @@ func TestVerif_C13(t *testing.T) {
 						break
 					}
 				}
-				// from here on the peer never reads again
+				// from here on the peer never reads again; a noisy one keeps sending frames the relay refuses
+				if c.noise != 0 {
+					go func() {
+						frame := []byte{0x82, 0x81, 0, 0, 0, 0, 'x'} // masked (key 0) binary frame
+						if c.noise == 2 {
+							frame = append([]byte{0x81, 0x88, 0, 0, 0, 0}, "not json"...)
+						}
+						for {
+							conn.SetWriteDeadline(time.Now().Add(time.Second))
+							if _, err := conn.Write(frame); err != nil {
+								return
+							}
+							time.Sleep(3 * time.Millisecond)
+						}
+					}()
+				}
 				select {
 				case <-started:
 				case <-time.After(vk.WaitBound):
@@ -550,13 +683,25 @@ func TestVerif_C13(t *testing.T) {
 				}
 				t0 := time.Now()
 				bound := 50*c.sendTimeout + c.delay + 2*time.Second
-				desc := fmt.Sprintf("send timeout %v, ping %v, handler starts flooding after %v", c.sendTimeout, c.ping, c.delay)
+				desc := fmt.Sprintf("send timeout %v, ping %v, handler starts flooding after %v, peer %s", c.sendTimeout, c.ping, c.delay, []string{"silent", "sends binary frames", "sends non-message text frames"}[c.noise])
 				rep.Eval(1)
 				select {
 				case <-ended:
 					rep.Count("websocket_stalled_peer_dropped", 1)
 					rep.Nontrivial("ws/" + desc)
 					rep.Set(fmt.Sprintf("ws_drop_ms[%s]", desc), time.Since(t0).Milliseconds())
+					// the relay's side of the session (ServeHTTP and its read/write loops) must be gone too
+					select {
+					case <-httpDone:
+						rep.Count("websocket_relay_sessions_torn_down", 1)
+					case <-time.After(vk.WaitBound):
+						hung = true
+						if p := vk.ParkedInRepo(); p != nil {
+							rep.Violation("websocket/relay-session-not-torn-down", "the handler's session ended after the stalled peer was dropped, but Relay.ServeHTTP never returned ("+desc+")", map[string]any{"options": desc, "parked_goroutine": p.Stack})
+						} else {
+							rep.Inconclusive("C13: Relay.ServeHTTP did not return within the bound, no goroutine parked in mocrelay code (" + desc + ")")
+						}
+					}
 				case <-time.After(bound):
 					g := ""
 					for _, x := range vk.Goroutines() {
@@ -568,6 +713,7 @@ func TestVerif_C13(t *testing.T) {
 					if c.ping == 0 {
 						sig += "/ping-disabled"
 					}
+					hung = true
 					rep.Violation(sig, fmt.Sprintf("a peer that never reads was not dropped within %v (%s)", bound, desc), map[string]any{"options": desc, "write_loop": g})
 				}
 			}(ci, c)
@@ -579,9 +725,10 @@ func TestVerif_C13(t *testing.T) {
 		rep.Inconclusive("C13: the router registry could not be observed by reflection (structure changed); the registry clause was not judged")
 	}
 	rep.Require(rep.SetSize("compositions") >= 100, "distinct compositions")
-	for _, e := range []string{"cancel, peer draining", "cancel, peer stalled", "inbound close, peer draining"} {
+	for _, e := range []string{"cancel, peer draining", "cancel, peer stalled", "inbound close, peer draining", "cancel, peer stalled after reading 1-3 messages"} {
 		rep.Require(rep.Counter("ending:"+e) >= int64(n/6), "ending "+e)
 	}
+	rep.Require(rep.Counter("router_backlog_sessions") >= int64(nBack), "router backlog sessions")
 	rep.Require(rep.Counter("sqlite_stalled_inserter_sessions") >= int64(nStall*2/3), "stalled-inserter sessions")
 	rep.Require(rep.Counter("websocket_stalled_peer_dropped") >= int64(len(cases)*reps*3/4), "websocket runs")
 }
